@@ -22,7 +22,7 @@ from typing import Callable, Dict, FrozenSet, List, Optional, Set, Tuple
 
 from .model import call_name, norm
 
-ABS, OUT, ORDER, ENV = "ABS", "OUT", "ORDER", "ENV"
+ABS, OUT, ORDER, ENV, RES = "ABS", "OUT", "ORDER", "ENV", "RES"
 L = frozenset
 EMPTY: FrozenSet[str] = frozenset()
 
@@ -346,11 +346,21 @@ class LabelFlow:
         for a in kwargs.values():
             allargs |= a
         short = name.split(".")[-1]
+        if name in ("os.getcwd", "os.getcwdb", "pathlib.Path.cwd", "Path.cwd"):
+            # where the process happens to run: an absolute location *and* an environment value (its base name is not
+            # "location independent" the way the base name of a path below the input directory is)
+            return L({ABS, ENV})
+        if name in ("os.path.realpath", "os.readlink") or short == "resolve":
+            # symlinks resolved: no longer comparable with the unresolved input path
+            return L({ABS, RES})
         if name in ABS_CALLS:
             return L({ABS})
         if name == "os.path.relpath":
+            if len(args) >= 2 and (RES in args[0]) != (RES in args[1]):
+                # relpath of a resolved path against an unresolved one (or vice versa) can climb out with '..'
+                return allargs | {ABS}
             if len(args) >= 2 and ABS in args[0] and ABS in args[1]:
-                return (args[0] | args[1]) - {ABS, OUT}
+                return (args[0] | args[1]) - {ABS, OUT, RES}
             if len(args) >= 2 and ABS not in args[0] and ABS not in args[1]:
                 return args[0] | args[1]
             return allargs | {ABS}
